@@ -2259,6 +2259,205 @@ pub(crate) mod persistence {
     }
 }
 
+/// Verification hook H1: thin constructors / decoders for the stored dependency-edge encoding.
+/// Contains no logic of its own beyond calling the crate-private API.
+#[cfg(feature = "salsa_verif")]
+pub mod verif {
+    use super::*;
+
+    /// `(is_output, ingredient, index, generation)`
+    pub type RawEdge = (bool, u32, u32, u32);
+
+    #[derive(Clone, Copy, Debug, PartialEq, Eq)]
+    pub enum OriginKind {
+        Derived,
+        DerivedUntracked,
+    }
+
+    /// Which optional revision data to attach.
+    #[derive(Clone, Copy, Debug, Default, PartialEq, Eq)]
+    pub struct ExtraSpec {
+        pub tracked_struct_ids: u8,
+        pub cycle_head: bool,
+        pub force: bool,
+    }
+
+    #[derive(Clone, Debug, PartialEq, Eq)]
+    pub struct ExtraView {
+        pub tracked_struct_ids: Vec<u64>,
+        pub cycle_heads: usize,
+        pub cycle_converged: bool,
+        pub accumulated_is_empty: bool,
+    }
+
+    #[derive(Clone, Debug, PartialEq, Eq)]
+    pub struct Decoded {
+        pub untracked: bool,
+        pub packed: bool,
+        pub edges: Vec<RawEdge>,
+        pub reversed: Vec<RawEdge>,
+        pub inputs: Vec<(u32, u32, u32)>,
+        pub outputs: Vec<(u32, u32, u32)>,
+        pub extra: Option<ExtraView>,
+    }
+
+    /// Largest ingredient index / generation of the compact encoding.
+    pub const PACKED_INGREDIENT_MAX: u32 = PackedQueryEdge::INGREDIENT_MASK;
+    pub const PACKED_GENERATION_MAX: u32 = PackedQueryEdge::GENERATION_MASK;
+
+    fn key(ingredient: u32, index: u32, generation: u32) -> DatabaseKeyIndex {
+        // SAFETY: the harness only passes indices below `Id::MAX_U32`.
+        let id = unsafe { Id::from_index(index) }.with_generation(generation);
+        DatabaseKeyIndex::new(IngredientIndex::new(ingredient), id)
+    }
+
+    fn edge(e: &RawEdge) -> QueryEdge {
+        if e.0 {
+            QueryEdge::output(key(e.1, e.2, e.3))
+        } else {
+            QueryEdge::input(key(e.1, e.2, e.3))
+        }
+    }
+
+    fn raw(e: QueryEdge) -> RawEdge {
+        let k = e.key();
+        (
+            e.kind() == QueryEdgeKind::Output,
+            k.ingredient_index().as_u32(),
+            k.key_index().index(),
+            k.key_index().generation(),
+        )
+    }
+
+    fn raw_key(k: DatabaseKeyIndex) -> (u32, u32, u32) {
+        (
+            k.ingredient_index().as_u32(),
+            k.key_index().index(),
+            k.key_index().generation(),
+        )
+    }
+
+    fn extra(spec: ExtraSpec) -> QueryRevisionsExtra {
+        let mut ids: ThinVec<(Identity, Id)> = ThinVec::new();
+        for i in 0..spec.tracked_struct_ids {
+            // SAFETY: small indices are valid.
+            ids.push((
+                Identity::verif_new(IngredientIndex::new(7), 1000 + i as u64, i as u32),
+                unsafe { Id::from_index(40 + i as u32) },
+            ));
+        }
+        let heads = if spec.cycle_head {
+            CycleHeads::initial(key(3, 9, 0), IterationStamp::default())
+        } else {
+            empty_cycle_heads().clone()
+        };
+        #[cfg(feature = "accumulator")]
+        let accumulated = AccumulatedMap::default();
+        QueryRevisionsExtra::new(
+            #[cfg(feature = "accumulator")]
+            accumulated,
+            ids,
+            heads,
+            IterationStamp::default(),
+            spec.force,
+        )
+    }
+
+    pub struct Stored(OriginAndExtra);
+
+    pub fn build(kind: OriginKind, edges: &[RawEdge], spec: ExtraSpec) -> Stored {
+        let it = edges.iter().map(edge);
+        Stored(match kind {
+            OriginKind::Derived => OriginAndExtra::derived(it, extra(spec)),
+            OriginKind::DerivedUntracked => OriginAndExtra::derived_untracked(it, extra(spec)),
+        })
+    }
+
+    fn view(e: Option<&QueryRevisionsExtraInner>) -> Option<ExtraView> {
+        e.map(|e| ExtraView {
+            tracked_struct_ids: e.tracked_struct_ids.iter().map(|(_, id)| id.as_bits()).collect(),
+            cycle_heads: e.cycle_heads.iter().count(),
+            cycle_converged: e.cycle_converged,
+            #[cfg(feature = "accumulator")]
+            accumulated_is_empty: e.accumulated.is_empty(),
+            #[cfg(not(feature = "accumulator"))]
+            accumulated_is_empty: true,
+        })
+    }
+
+    impl Stored {
+        pub fn decode(&self) -> Decoded {
+            let origin = self.0.origin();
+            let (untracked, edges) = match origin {
+                QueryOriginRef::Derived(e) => (false, e),
+                QueryOriginRef::DerivedUntracked(e) => (true, e),
+                QueryOriginRef::Assigned(_) => unreachable!("hook builds derived origins only"),
+            };
+            Decoded {
+                untracked,
+                packed: matches!(edges.data, QueryEdgesData::Packed(_)),
+                edges: edges.iter().map(raw).collect(),
+                reversed: edges.iter().rev().map(raw).collect(),
+                inputs: origin.inputs().map(raw_key).collect(),
+                outputs: origin.outputs().map(raw_key).collect(),
+                extra: view(self.0.extra()),
+            }
+        }
+
+        /// The path taken when extra data is attached to an origin that had none.
+        pub fn set_cycle_converged(&mut self) {
+            self.0.get_or_insert_extra().cycle_converged = true;
+        }
+
+        #[cfg(not(feature = "persistence"))]
+        pub fn clear_edges(&mut self) {
+            self.0.clear_edges();
+        }
+
+        /// Serialized form of revisions holding this origin (and its extra data).
+        #[cfg(feature = "persistence")]
+        pub fn persisted(self) -> PersistedRevisions {
+            let edges: Vec<QueryEdge> = self.0.origin().edges().iter().collect();
+            let origin = if self.0.is_derived_untracked() {
+                persistence::PersistentQueryOrigin::derived_untracked(edges)
+            } else {
+                persistence::PersistentQueryOrigin::derived(edges)
+            };
+            PersistedRevisions {
+                origin,
+                revisions: QueryRevisions {
+                    changed_at: Revision::start(),
+                    durability: Durability::LOW,
+                    origin_and_extra: self.0,
+                    #[cfg(feature = "accumulator")]
+                    accumulated_inputs: Default::default(),
+                    verified_final: AtomicBool::new(true),
+                },
+            }
+        }
+    }
+
+    #[cfg(feature = "persistence")]
+    pub struct PersistedRevisions {
+        origin: persistence::PersistentQueryOrigin,
+        revisions: QueryRevisions,
+    }
+
+    #[cfg(feature = "persistence")]
+    impl PersistedRevisions {
+        pub fn serialize<S: serde::Serializer>(self, serializer: S) -> Result<S::Ok, S::Error> {
+            serde::Serialize::serialize(&self.revisions.with_origin(self.origin), serializer)
+        }
+    }
+
+    /// Deserialize revisions written by [`PersistedRevisions::serialize`] and decode their origin.
+    #[cfg(feature = "persistence")]
+    pub fn deserialize_revisions<'de, D: serde::Deserializer<'de>>(deserializer: D) -> Result<Decoded, D::Error> {
+        let revisions: QueryRevisions = serde::Deserialize::deserialize(deserializer)?;
+        Ok(Stored(revisions.origin_and_extra).decode())
+    }
+}
+
 #[cfg(test)]
 mod tests {
     use std::mem::size_of;
